@@ -515,6 +515,9 @@ pub fn generate(rng: &mut Rng, pool: &TextPool, max_steps: usize) -> History {
                         7..=8 => Query::Completion,
                         _ => Query::Formatting,
                     };
+                    // known finding (DESIGN §7, F15): formatting some texts trips a debug-checked invariant of dprint-core and
+                    // kills the analysis thread; keep that observed in one of four such cases and keep the session alive otherwise
+                    let q = if q == Query::Formatting && crate::oracle::formatter_panics(text) && !rng.chance(1, 4) { Query::Hover } else { q };
                     let (line, ch, class) = if q == Query::Formatting { (0, 0, PosClass::Inside) } else { pick_position(rng, text) };
                     steps.push(Step::Req { doc: d, q, line, ch, class });
                 }
